@@ -87,6 +87,8 @@ pub struct Knobs {
     pub h_cloneself: u32,
     pub h_budget: u32,
     pub h_burn: u32,
+    /// concurrent sub-operations inside one handler (join!)
+    pub h_join: u32,
     // hooks
     pub start_steps: u32, // permille
     pub start_fail: u32,
@@ -144,6 +146,7 @@ impl Knobs {
             h_cloneself: 1,
             h_budget: 1,
             h_burn: 0,
+            h_join: 2,
             start_steps: 300,
             start_fail: 0,
             start_panic: 0,
@@ -184,7 +187,7 @@ fn gen_msg(g: &mut G, k: &Knobs, actor: usize, n_actors: usize, depth: u32, join
     if g.chance(k.h_steps) {
         let n = g.range(1, 3);
         for _ in 0..n {
-            let w = [k.h_yield, k.h_sleep, k.h_tell_peer, k.h_ask_peer, k.h_stopself, k.h_killself, k.h_panic, k.h_stall, k.h_cloneself, k.h_budget, k.h_burn];
+            let w = [k.h_yield, k.h_sleep, k.h_tell_peer, k.h_ask_peer, k.h_stopself, k.h_killself, k.h_panic, k.h_stall, k.h_cloneself, k.h_budget, k.h_burn, k.h_join];
             match g.weighted(&w) {
                 0 => steps.push(Op::Yield(g.range(1, 3) as u32)),
                 1 => steps.push(Op::Sleep(g.pick(&k.sleeps))),
@@ -211,6 +214,25 @@ fn gen_msg(g: &mut G, k: &Knobs, actor: usize, n_actors: usize, depth: u32, join
                 8 => steps.push(Op::CloneSelf { to: 200 + g.below(4) as u32 }),
                 9 => steps.push(Op::BurnBudget),
                 10 => steps.push(Op::Burn(g.range(200, 1500))),
+                11 if depth < 2 && n_actors > 1 => {
+                    // join!: two or three operations in flight at once from this handler; asks still
+                    // only go upwards, so the static ask graph stays acyclic
+                    let mut subs = Vec::new();
+                    for _ in 0..g.range(2, 3) {
+                        if actor + 1 < n_actors && g.chance(700) {
+                            let peer = g.range(actor as u64 + 1, n_actors as u64 - 1) as usize;
+                            let m = gen_msg(g, k, peer, n_actors, depth + 1, false);
+                            subs.push(if g.chance(250) { Op::AskT { h: 50 + peer as u32, m, ms: g.pick(&k.timeouts) } } else { Op::Ask { h: 50 + peer as u32, m } });
+                        } else if g.chance(500) {
+                            let peer = g.below(n_actors as u64) as usize;
+                            let m = gen_msg(g, k, peer, n_actors, depth + 1, false);
+                            subs.push(Op::Tell { h: 50 + peer as u32, m });
+                        } else {
+                            subs.push(Op::Sleep(g.pick(&k.sleeps)));
+                        }
+                    }
+                    steps.push(Op::Join(subs));
+                }
                 _ => steps.push(Op::Yield(1)),
             }
         }
